@@ -18,7 +18,7 @@ MATERIAL = [";", "{", "}", "(", ")", "[", "]", "+", "-", "*", "/", "%", "=", "<"
 def filler(d, width, forbid):
     out = ""
     guard = 0
-    style = d.int(0, 5)   # 0: upper-case letters only, 1: no letters at all, else: anything
+    style = d.int(0, 4)   # 0: upper-case letters only, 1: no letters at all, else: anything
     pool = [m for m in MATERIAL if not any(c.islower() for c in m)] if style == 0 else [m for m in MATERIAL if not any(c.isalpha() for c in m)] if style == 1 else MATERIAL
     while len(out) < width and guard < 400:
         guard += 1
@@ -107,6 +107,12 @@ def case(d):
             p.variant = ("trailing-blank-after-literal", p.lines[i].kind, i)
             p.lines[i].lex.append(_SP())
             forced = j
+    if forced is None and p.variant and p.variant[0] in ("K01", "K02", "K03", "K04") and sp:
+        # the comment that the operator put there is the one to rewrite
+        li = p.variant[2]
+        own = [j for j, (i, k, kind) in enumerate(sp) if i == li and kind in ("block-comment", "line-comment")]
+        if own:
+            forced = d.choice(own)
     q = p.copy()
     chosen = []
     if sp:
